@@ -97,6 +97,21 @@ where
             {
                 return env.skip(); // exact sum of unlimited-precision operands far apart: huge
             }
+            if form >= 16 {
+                // the same forms under another rounding mode (values converted with with_rounding, which keeps
+                // value and precision): forms 16*m + f, m = 1 Up, 2 Down, 3 HalfEven, 4 Away
+                let (x, y) = (&ww.p[a], &ww.p[b]);
+                let f = form % 16;
+                let r: FBig<R, B> = match (form / 16) % 5 {
+                    1 => binop_in_mode::<mode::Up, R, B>(x, y, rest, f),
+                    2 => binop_in_mode::<mode::Down, R, B>(x, y, rest, f),
+                    3 => binop_in_mode::<mode::HalfEven, R, B>(x, y, rest, f),
+                    4 => binop_in_mode::<mode::Away, R, B>(x, y, rest, f),
+                    _ => binop_in_mode::<mode::HalfAway, R, B>(x, y, rest, f),
+                };
+                ww.p[dst] = r;
+                return env.res(pid, dst);
+            }
             if form % 10 >= 8 {
                 // the Context method at the precision the operator uses
                 let ctx = Context::max(ww.p[a].context(), ww.p[b].context());
@@ -265,7 +280,9 @@ where
         "exp" | "ln" | "expm1" | "ln1p" => {
             let x = &ww.p[a];
             // keep arguments in the documented domain and moderate in size (termination is not this check's topic)
-            let small = x.repr().significand().bit_len() as isize + x.repr().exponent() * (B as f64).log2().ceil() as isize <= 6;
+            // (integer arithmetic only: the harness must not depend on the float environment)
+            let bits_per_digit: isize = (Word::BITS - (B - 1).leading_zeros()) as isize;
+            let small = x.repr().significand().bit_len() as isize + x.repr().exponent() * bits_per_digit <= 6;
             if !tame(x) || x.precision() == 0 || x.precision() > 200 || !small {
                 return env.skip();
             }
@@ -556,6 +573,23 @@ pub fn exec_fd(w: &mut World, op: &Op, rest: &str, env: &mut Env) {
             w.f[dst] = r.value();
             env.res(Pool::F, dst);
         }
+        "viahex" | "viaoct" => {
+            // base 2 -> 16 (or 8) -> 2: the second conversion takes the "old base is a power of the new base" shortcut
+            let x = &w.f[a];
+            if !tame(x) {
+                return env.skip();
+            }
+            let r = if rest == "viahex" {
+                let h: FBig<mode::Zero, 16> = x.clone().with_base::<16>().value();
+                env.emit_u64("digits16", h.digits() as u64);
+                h.with_base::<2>().value()
+            } else {
+                let h: FBig<mode::Zero, 8> = x.clone().with_base::<8>().value();
+                h.with_base::<2>().value()
+            };
+            w.f[dst] = r;
+            env.res(Pool::F, dst);
+        }
         "rounding" => {
             // same value under another rounding mode and back: must not change value or precision
             let x = w.f[a].clone();
@@ -569,3 +603,38 @@ pub fn exec_fd(w: &mut World, op: &Op, rest: &str, env: &mut Env) {
 
 #[allow(unused_imports)]
 use {hex_ibig as _h, Signed as _S, SquareRoot as _Q};
+
+/// one call form of a float binary operator executed under rounding mode `M`
+fn binop_in_mode<M: Round, R: Round, const B: Word>(x: &FBig<R, B>, y: &FBig<R, B>, rest: &str, f: u16) -> FBig<R, B> {
+    let x2: FBig<M, B> = x.clone().with_rounding();
+    let y2: FBig<M, B> = y.clone().with_rounding();
+    macro_rules! forms {
+        ($tr:tt, $tra:tt, $ctx:ident) => {
+            match f % 10 {
+                0 => x2.clone() $tr y2.clone(),
+                1 => x2.clone() $tr &y2,
+                2 => &x2 $tr y2.clone(),
+                3 => &x2 $tr &y2,
+                4 | 6 => {
+                    let mut t = x2.clone();
+                    t $tra y2.clone();
+                    t
+                }
+                5 | 7 => {
+                    let mut t = x2.clone();
+                    t $tra &y2;
+                    t
+                }
+                _ => Context::max(x2.context(), y2.context()).$ctx(x2.repr(), y2.repr()).value(),
+            }
+        };
+    }
+    let r: FBig<M, B> = match rest {
+        "add" => forms!(+, +=, add),
+        "sub" => forms!(-, -=, sub),
+        "mul" => forms!(*, *=, mul),
+        "div" => forms!(/, /=, div),
+        _ => forms!(%, %=, rem),
+    };
+    r.with_rounding()
+}
